@@ -258,9 +258,9 @@ type zzCfg struct {
 
 var zzCfgAll = []zzCfg{{1, 0.75}, {1, 1.0}, {2, 0.75}, {2, 1.0}, {3, 0.75}, {3, 1.0}}
 
-// Symbolic harness, quick tier (<= 2 keys): (2,1.0), (3,0.75), (3,1.0) never grow and differ only in
-// the table size, one of them is kept
-var zzCfgSymQuick = []zzCfg{{1, 0.75}, {1, 1.0}, {2, 0.75}, {3, 1.0}}
+// Symbolic harness, quick tier (<= 2 keys): (2,1.0), (3,0.75), (3,1.0) never grow within 2 insertions;
+// a fixed table of 3 slots is what (1,0.75) has after its first insertion, so they are left to thorough/Pool
+var zzCfgSymQuick = []zzCfg{{1, 0.75}, {1, 1.0}, {2, 0.75}}
 
 // Symbolic harness, thorough tier (<= 3 keys): capacities 1 and 2 (growth 1->3->7 and 2->5)
 var zzCfgSymThorough = []zzCfg{{1, 0.75}, {1, 1.0}, {2, 0.75}, {2, 1.0}}
